@@ -219,7 +219,8 @@ def opFindNS (args : String) : String :=
         | [f, c] => some (nsSegs f, c.toList)
         | _ => none
       let r := Namespace.findDefined t cls.toList (nsSegs frame)
-      "[" ++ String.ofList (Config.joinNS r.reverse) ++ "]"
+      let l := Namespace.lookupDefined t cls.toList (nsSegs frame)
+      "[" ++ String.ofList (Config.joinNS r.reverse) ++ "] [" ++ String.ofList (Config.joinNS l.1.reverse) ++ "] " ++ (if l.2 then "1" else "0")
     | _ => "BAD-ARGS"
   | _ => "BAD-ARGS"
 
@@ -347,6 +348,17 @@ def opLookup (args : String) : String :=
         | none => "R?"
     | _ => "BAD-ARGS"
   | _ => "BAD-ARGS"
+
+/-- addparent <node> ... : node = frame~class~include~extend, OBJ = the implicit Object ancestor (appended as the evaluator registers it) -/
+def opAddParent (args : String) : String :=
+  let toks := (args.splitOn " ").filter (· != "")
+  let undash := fun (s : Str) => if s.isEmpty then "-" else String.ofList s
+  let res : List Inherit.Node := toks.foldl (fun ps f =>
+    if f == "OBJ" then ps ++ [Inherit.objectNode]
+    else match f.splitOn "~" with
+      | [fr, c, inc, ext] => Inherit.addParent ps { frame := dashS fr, cls := dashS c, isInclude := inc == "1", isExtend := ext == "1" }
+      | _ => ps) []
+  " ".intercalate (res.map fun n => undash n.frame ++ "~" ++ undash n.cls ++ "~" ++ (if n.isInclude then "1" else "0") ++ "~" ++ (if n.isExtend then "1" else "0"))
 
 def opNarrow (args : String) : String :=
   match args.splitOn " | " with
@@ -498,6 +510,7 @@ def dispatch (line : String) : String :=
   else if name == "sortsig" then opSortSig args
   else if name == "suggest" then opSuggest args
   else if name == "lookup" then opLookup args
+  else if name == "addparent" then opAddParent args
   else if name == "match" then opMatch args
   else if name == "bind" then opBind args
   else if name == "prop" then opProp args
